@@ -115,6 +115,26 @@ static std::string handle(const std::vector<std::string>& f)
             return "STREAMS-DIFFER:prior-content " + nv::hex(t2);
         if (t3 != t1)
             return "STREAMS-DIFFER:non-seekable " + nv::hex(t3);
+
+        // the same declarations seen through a parser object that was moved (a parser built in a
+        // factory function, stored in a member, ...): the text has to be the same
+        no::parser q(std::move(p));
+        std::stringstream moved;
+        q.usage(moved);
+        if (moved.str() != t1)
+            return "MOVED-DIFFERS:move-constructed " + nv::hex(moved.str());
+        no::parser r("other", "other about");
+        r.group("other group", "dropped by the assignment").toggle("dropped", "dropped");
+        r = std::move(q);
+        std::stringstream assigned;
+        r.usage(assigned);
+        if (assigned.str() != t1)
+            return "MOVED-DIFFERS:move-assigned " + nv::hex(assigned.str());
+        no::parser q2(std::move(r));
+        std::stringstream twice;
+        q2.usage(twice);
+        if (twice.str() != t1)
+            return "MOVED-DIFFERS:moved-twice " + nv::hex(twice.str());
         return "ok " + nv::hex(t1);
     }
     catch (no::parser_error&)
